@@ -841,4 +841,5 @@ package s3db
 //@ func parseSchema
 //@   modifies nothing
 //@   ensures-local reported-errors-are-errors: imp(len(errs) > 0, err != nil && result0 == nil)
+//@   ensures-local trailing-input-is-an-error: imp(err == nil, p.Remaining == "" && result0 == addr(schema))
 //@   ensures failed-or-schema: (err == nil) == (result0 != nil)
